@@ -73,6 +73,11 @@ def descriptions(tier, rnd):
     out.append(('```\ndef doc(x):\n    "the docstring"\n    return [x, doc.__doc__]\n```\nstart = /[a-z]+/ |> `doc`\n', ['ok', '']))
     out.append(('```\nclass Reading:\n    count: int\n    value: float\ndef conv(x):\n    return [Reading.__annotations__["count"](x), conv.__annotations__.get("return", "none") is list]\nconv.__annotations__["return"] = list\n```\nstart = /[0-9]+/ |> `conv`\n', ['7', '12', 'x', '']))
     out.append(('```\ndef tag(x: int = 3) -> "str":\n    return [x, sorted(tag.__annotations__.items()) == [("return", "str"), ("x", int)]]\n```\nstart = /[a-z]+/ |> `tag`\n', ['ab', '']))
+    # Python sections are copied verbatim: characters that are invisible in the source (trailing blanks and tabs inside a
+    # multi-line string, a form feed, a line continuation, non-ASCII text) are part of the values the module computes
+    out.append(('```\nBREAK = """first  \nsecond\t\nthird \t """\n```\nstart = /[a-z]+/ |> `lambda w: [w, BREAK]`\n', ['ok', '']))
+    out.append(('```\nTXT = \'\'\'a \\\n  b\x0c\n\n\n  c\u00e9\u2028d\'\'\'\ndef f(w):\n    return [w, TXT,\n\n            len(TXT)]\n```\nstart = /[a-z]+/ |> `f`\n', ['ok', '']))
+    out.append(('```\nR = r"""x\\  \n\ty  """   \nS = "tab\there"\n```\nstart = "a" |> `lambda _: [R, S]`\n', ['a', '']))
     # anonymous ignore patterns with and without a header
     out.append(('start = W*\nW = /[a-z]+/\nignore /[ ]+/\nignore /#[a-z]*/\n', ['ab cd', 'ab #x cd', ' ab', 'ab#', '']))
     out.append(('ignore /[ ]+/\nclass K { w: /[a-z]+/ }\nstart = K+\n', ['ab cd', ' ab', 'ab  ', '']))
